@@ -69,7 +69,7 @@ pub struct Plan {
 
 fn env_noise(rng: &mut Rng) -> Vec<(String, String)> {
     let mut env = vec![];
-    let cands: [(&str, &[&str]); 29] = [
+    let cands: [(&str, &[&str]); 28] = [
         ("SOURCE_DATE_EPOCH", &["0", "1700000000", "4102444800"]),
         ("LANG", &["C", "en_US.UTF-8", "tr_TR.UTF-8", "ja_JP.eucJP"]),
         ("LC_ALL", &["C", "POSIX", "de_DE.UTF-8"]),
@@ -98,12 +98,42 @@ fn env_noise(rng: &mut Rng) -> Vec<(String, String)> {
         ("DOCS_RS", &["1"]),
         ("VERIF_CWD", &["cwd", "cwd-b", "ws/a"]),
         ("VERIF_EXE_NAME", &["rustc", "rust-analyzer-proc-macro-srv", "clippy-driver"]),
-        ("VERIF_ARGV", &["--crate-name a --edition 2021", "--crate-name zzz -C metadata=0123abcd --cfg test", "-C opt-level=3"]),
     ];
     for (k, vs) in cands {
         if rng.chance(1, 2) {
             env.push((k.to_string(), rng.pick(vs).to_string()));
         }
+    }
+    // the command line of the simulated compiler process: 0..5 fragments of realistic rustc /
+    // cargo invocations (crate name, edition, how diagnostics are rendered, optimisation, cfgs, ..)
+    if rng.chance(1, 2) {
+        const FRAGS: [&str; 20] = [
+            "--crate-name a",
+            "--crate-name zzz",
+            "--edition 2021",
+            "--edition=2018",
+            "--error-format=short",
+            "--error-format=json",
+            "--error-format=human",
+            "--json=diagnostic-short,artifacts",
+            "--json=diagnostic-rendered-ansi,future-incompat",
+            "--color=always",
+            "--color never",
+            "-C metadata=0123abcd",
+            "-C opt-level=3",
+            "-C debuginfo=2",
+            "--cfg test",
+            "--cfg feature=\"std\"",
+            "--test",
+            "--cap-lints allow",
+            "--crate-type proc-macro",
+            "-Zunpretty=expanded",
+        ];
+        let mut parts: Vec<&str> = vec![];
+        for _ in 0..rng.range(1, 5) {
+            parts.push(FRAGS[rng.usize(FRAGS.len())]);
+        }
+        env.push(("VERIF_ARGV".to_string(), parts.join(" ")));
     }
     if rng.chance(1, 2) {
         env.push((format!("VERIF_NOISE_{}", rng.below(1000)), format!("{}", rng.next_u64())));
